@@ -336,5 +336,38 @@ theorem isAuthorized_reasons (id : String) :
 
 end
 
+/-! ### the recursion-budget side conditions as a computable check (for closed instances) -/
+
+def isStuck : PolicyResult → Bool
+  | .stuck => true
+  | _ => false
+
+/-- neither pass exhausts the model's recursion budget, for every policy of the list -/
+def fuelOK (σ : Mapper) (req : Request) (es : Entities) (preq : PRequest) (pes : PEntities) (ps : List Policy) : Bool :=
+  ps.all fun p => !isStuck (partialEvaluate [] preq pes p) &&
+    (match residualPolicy (partialEvaluate [] preq pes p) p with
+     | some q => !isStuck (partialEvaluate σ (.ofConcrete req) (.ofConcrete es) q)
+     | none => true)
+
+theorem fuelOK_spec {σ : Mapper} {req : Request} {es : Entities} {preq : PRequest} {pes : PEntities} {ps : List Policy}
+    (h : fuelOK σ req es preq pes ps = true) :
+    (∀ p, p ∈ ps → partialEvaluate [] preq pes p ≠ .stuck) ∧
+    (∀ p, p ∈ ps → ∀ q, residualPolicy (partialEvaluate [] preq pes p) p = some q →
+      partialEvaluate σ (.ofConcrete req) (.ofConcrete es) q ≠ .stuck) := by
+  unfold fuelOK at h
+  rw [List.all_eq_true] at h
+  constructor
+  · intro p hp hs
+    have := h p hp
+    rw [hs] at this
+    simp [isStuck] at this
+  · intro p hp q hq hs
+    have := h p hp
+    rw [hq] at this
+    simp only [Bool.and_eq_true] at this
+    have h2 := this.2
+    rw [hs] at h2
+    simp [isStuck] at h2
+
 end PS
 end Cedar
